@@ -387,8 +387,17 @@ func (e *Exec) runHeap() *Violation {
 			e.st.Skipped[fmt.Sprintf("size-mismatch-%s-%s", kt.Kind, s.Op)]++
 			return
 		}
-		if after > before+heapGrowthLimit {
-			v = e.viol("heap", "C17-"+s.Op, 0, "%s with %d keys: %d %s operations grew the live heap from %d to %d bytes (+%d, %d objects; limit %d) with the content unchanged", kt, S, N, s.Op, before, after, after-before, int64(afterObj)-int64(beforeObj), heapGrowthLimit)
+		// the line: 512 KiB, or an eighth of the live heap before if that is more. A tree
+		// that went through churn may keep some nodes in a larger size class than a
+		// freshly built one (shrinking is lazier than growing): bounded by the content,
+		// measured at +1.4 % on a 38 MB tree (seed 7, run 844). A per-operation leak is
+		// orders of magnitude above either line at these operation counts.
+		limit := uint64(heapGrowthLimit)
+		if before/8 > limit {
+			limit = before / 8
+		}
+		if after > before+limit {
+			v = e.viol("heap", "C17-"+s.Op, 0, "%s with %d keys: %d %s operations grew the live heap from %d to %d bytes (+%d, %d objects; limit %d) with the content unchanged", kt, S, N, s.Op, before, after, after-before, int64(afterObj)-int64(beforeObj), limit)
 		}
 		_ = base
 	})
